@@ -24,6 +24,7 @@ import EinxModel.Driver.Shorthand
 import EinxModel.Driver.Reject
 import EinxModel.Driver.OptDag
 import EinxModel.Driver.Lower
+import EinxModel.Driver.Lower2
 import EinxModel.Driver.Xlate
 import EinxModel.Driver.Exec
 /-! Line-protocol driver: one JSON request per input line, one JSON answer per output line. -/
@@ -56,6 +57,7 @@ def dispatch (j : Json) : R Json := do
   | "reject_spec" | "elab_rules" => Einx.Driver.Reject.handle j
   | "optdag" => Einx.Driver.OptDag.handle j
   | "lower_model" => Einx.Driver.Lower.handle j
+  | "lower_generic" => Einx.Driver.Lower2.handle j
   | "xlate_stb" | "xlate_diag" | "xlate_ids" | "xlate_unravel" | "py_prelude" => Einx.Driver.Xlate.handle j
   | "exec_check" => Einx.Driver.Exec.handle j
   | "update_denote" | "update_lower" | "update_get" | "update_addr" | "np_put" | "np_ufunc_at" | "assignments" =>
